@@ -245,7 +245,7 @@ fn cfg_for(pid: &str, rng: &mut Rng) -> String {
         }
         "C20" => {
             if rng.chance(1, 2) {
-                conv = Some(*rng.pick(&[1e-3, 1e-6, 0.1, 0.0, 10.0, 1e-2]));
+                conv = Some(*rng.pick(&[1e-3, 1e-6, 0.1, 0.0, 10.0, 1e-2, -1e-3, f64::NAN, f64::INFINITY, f64::NEG_INFINITY]));
                 steps = *rng.pick(&[60u64, 100, 200, 333, 600]);
                 inner = *rng.pick(&[1u64, 3, 5, 10, 20]);
             }
@@ -331,6 +331,33 @@ fn c09(s: &mut Search, rng: &mut Rng) {
 
 fn c10(s: &mut Search, rng: &mut Rng) {
     let mut n = 0u64;
+    // the order used by `.max()`: pairs of states of one type with positive, negative and zero scores
+    for _ in 0..3000 {
+        let (a, _, _) = gen_lj_state(rng);
+        let (b, _, _) = gen_lj_state(rng);
+        // same shape and group for both so that the types agree; only the parameters differ
+        let ta: Vec<&str> = a.split(' ').collect();
+        let tb: Vec<&str> = b.split(' ').collect();
+        let gi = ta.iter().position(|t| crate::gen::GROUPS.contains(t)).unwrap_or(0);
+        let gj = tb.iter().position(|t| crate::gen::GROUPS.contains(t)).unwrap_or(0);
+        let b2 = format!("{} {}", ta[..=gi].join(" "), tb[gj + 1..].join(" "));
+        let req = format!("oracle c10_order {} ; {}", a, b2);
+        s.class("order-lj");
+        s.run("Cli.order", &req, "c10_order", "the order on states is not the order of their scores", true);
+        if n % 3 == 0 {
+            let h1 = gen_hard_state_adversarial(rng);
+            let t1: Vec<&str> = h1.split(' ').collect();
+            let g1 = t1.iter().position(|t| crate::gen::GROUPS.contains(t)).unwrap_or(0);
+            let h2 = gen_hard_state_adversarial(rng);
+            let t2: Vec<&str> = h2.split(' ').collect();
+            let g2 = t2.iter().position(|t| crate::gen::GROUPS.contains(t)).unwrap_or(0);
+            let req = format!("oracle c10_order {} ; {} {}", h1, t1[..=g1].join(" "), t2[g2 + 1..].join(" "));
+            s.class("order-hard");
+            s.run("Cli.order", &req, "c10_order", "the order on states is not the order of their scores", true);
+        }
+        n += 1;
+    }
+    n = 0;
     while s.time_left() && n < 100_000 {
         n += 1;
         let req = format!("oracle cli_check C10 {} {}", 1 + rng.below(3), cli_tail(rng));
@@ -415,7 +442,7 @@ fn opt_search(pid: &str, s: &mut Search, rng: &mut Rng) {
         if pid == "C20" && kind < 3 {
             let mut cfg = cfg_for(pid, rng);
             if cfg.ends_with(" -") {
-                cfg = format!("{} {}", &cfg[..cfg.len() - 2], fhex(*rng.pick(&[1e-3, 0.1, 10.0, 0.0])));
+                cfg = format!("{} {}", &cfg[..cfg.len() - 2], fhex(*rng.pick(&[1e-3, 0.1, 10.0, 0.0, f64::NAN, f64::INFINITY, -1.0])));
             }
             let st = if rng.chance(1, 4) { format!("crystal {}", crate::gen::gen_state_desc(rng, true)) } else { scripted_for(pid, rng) };
             let req = format!("oracle opt_prefix {} {}", cfg, st);
